@@ -175,6 +175,8 @@ class ChanMachine(ohist.Machine):
                 out += [("assign", ((1, free[0]), (0, free[1]))), ("assign", ((2, free[0]), (2, free[1])))]
         if t == R.T_PLATDATA and len(model) + 1 <= MAXITEMS and free:
             out.append(("assign_pd", 1))
+            out.append(("assign_pd_bad", "tail"))   # a valid platform followed by a non-platform
+            out.append(("assign_pd_bad", "head"))   # a non-platform first
         out.append(("roundtrip",))
         return list(dict.fromkeys(out))
 
@@ -313,6 +315,14 @@ class ChanMachine(ohist.Machine):
             after = self.view(b)
             if err is not None and not isinstance(err, ValueError):
                 raise self.V("assign-raises", f"platforms = [item]: {type(err).__name__}: {err}", origin)
+            model = self.resync(before, after, [i], origin, allow_drop=True)
+        elif kind == "assign_pd_bad":
+            i = free[0]
+            value = [self.lib_item(i), "not a platform"] if op[1] == "tail" else ["not a platform", self.lib_item(i)]
+            err = call(lambda: setattr(b, "platforms", value))
+            if err is None:
+                raise self.V("invalid-element-accepted", f"platforms = [{op[1]}: non-platform] accepted", origin)
+            after = self.view(b)
             model = self.resync(before, after, [i], origin, allow_drop=True)
         elif kind == "roundtrip":
             data = specs.lib_encode(b)
